@@ -26,7 +26,7 @@ func opGen(kinds []string) *rapid.Generator[Op] {
 }
 
 func seqGen() *rapid.Generator[Case] {
-	og := opGen([]string{"register", "register", "register", "named", "named", "list", "render"})
+	og := opGen([]string{"register", "register", "register", "named", "named", "list", "render", "styles"})
 	return rapid.Custom(func(t *rapid.T) Case {
 		return Case{Kind: "seq", Prefix: rapid.SampledFrom(prefixes).Draw(t, "prefix"), Ops: rapid.SliceOfN(og, 1, 20).Draw(t, "ops")}
 	})
